@@ -23,6 +23,12 @@ type Interpreter struct {
 func New(in io.Reader, out io.Writer) *Interpreter {
 	var i Interpreter
 	i.FS = defaultFS{}
+	if in == nil { // No input. Reading from user_input reaches the end of stream right away.
+		in = strings.NewReader("")
+	}
+	if out == nil { // No output. Whatever is written to user_output is discarded.
+		out = io.Discard
+	}
 	i.SetUserInput(engine.NewInputTextStream(in))
 	i.SetUserOutput(engine.NewOutputTextStream(out))
 
